@@ -1380,6 +1380,10 @@ func (s *ImmuServer) UpdateDatabaseV2(ctx context.Context, req *schema.UpdateDat
 		return nil, err
 	}
 
+	if req.Settings == nil {
+		return nil, ErrIllegalArguments
+	}
+
 	if req.Settings.ReplicationSettings != nil && !db.IsClosed() {
 		err = s.stopReplicationFor(req.Database)
 		if err != nil && err != ErrReplicationNotInProgress {
